@@ -256,6 +256,7 @@ class BoundaryConditionsBase:
         self.top = top
         self.back = back
         self.front = front
+        self._epoch = 0 # incremented each time a modification is consumed
 
     def __str__(self):
         temp = vars(self)
